@@ -68,7 +68,13 @@ RandCase(i) ==
               !.assigns = [k \in 1..RandomElement(0..3) |-> LET x == RandCross(s, b, k + 10) IN A(nets[RandomElement(1..3)], x[1], x[2], x[3], x[4])],
               !.insts = [k \in 1..RandomElement(0..2) |-> In(1, 1, RandomElement(1..Len(s.metals)), RandomElement(0..2), RandomElement(0..2),
                                                             RandomElement(BOOLEAN), RandomElement(BOOLEAN))]]]
-Init == c \in Cases \cup { RandCase(i) : i \in 1..NRand }
+\* a LONG row: 17 instances side by side leave every lower-metal track with 35 segments; nets assigned in the gaps between
+\* the 3rd / 4th and the 16th / 17th instance (whatever is done differently for tracks with many segments, the piece that
+\* covers the crossing carries the net)
+LongRow == { [stack |-> Stk(<<PA("H", 0), PA("V", 0)>>),
+              cell |-> Cell(70, 1, 2, <<>>, << A("sig", 0, t, 1, ct) >>, [i \in 1..17 |-> In(2, 1, 1, 1 + (4 * (i - 1)), 0, FALSE, FALSE)])]
+             : t \in {0, 2, 5}, ct \in {34, 35, 190} }
+Init == c \in Cases \cup LongRow \cup { RandCase(i) : i \in 1..NRand }
 Next == UNCHANGED c
 Spec == Init /\ [][Next]_c
 
